@@ -154,7 +154,29 @@ def solve(q: Query, outdir: str, timeout_s: float = 10.0, both: bool = False) ->
     return q
 
 
-def solve_all(queries: List[Query], outdir: str, timeout_s: float = 10.0, both: bool = False, jobs: int = 16) -> List[Query]:
+def retry_file(path: str, timeout_s: float):
+    """second opinion for a query both back ends left open while all cores were busy: the stored file again, alone, with a longer
+    budget; returns (verdict, backend, model, by_backend)"""
+    by = {}
+    out, _ = _run([Z3, f'-T:{int(timeout_s)}', path], timeout_s + 5)
+    v = _first_verdict(out)
+    by['z3'] = v
+    if v in ('sat', 'unsat'):
+        return v, 'z3', (parse_model(out) if v == 'sat' else {}), by
+    cpath = path[:-5] + '.cvc5.smt2'
+    if not os.path.exists(cpath):
+        with open(cpath, 'w') as f:
+            f.write('(set-logic ALL)\n(set-option :produce-models true)\n')
+            f.write(''.join(l for l in open(path) if not l.startswith(';')))
+    out2, _ = _run([CVC5, f'--tlimit={int(timeout_s * 1000)}', '--strings-exp', cpath], timeout_s + 5)
+    v2 = _first_verdict(out2)
+    by['cvc5'] = v2
+    if v2 in ('sat', 'unsat'):
+        return v2, 'cvc5', (parse_model(out2) if v2 == 'sat' else {}), by
+    return 'unknown', None, {}, by
+
+
+def solve_all(queries: List[Query], outdir: str, timeout_s: float = 10.0, both: bool = False, jobs: int = 2) -> List[Query]:
     uniq: Dict[str, Query] = {}
     for q in queries:
         uniq.setdefault(q.hash, q)
